@@ -535,8 +535,18 @@ func (e *env) chanOp(comm ast.Stmt) (guard string, move string) {
 		if f, ok := e.recvField(c.Chan); ok {
 			if capF, isChan := e.f.chans[f]; isChan {
 				e.useField(f)
-				capS := capF // a literal capacity (`make(chan T, 1)`), or the field that holds it
-				if strings.Trim(capF, "0123456789") != "" {
+				capS := capF // a literal capacity (`make(chan T, 1)`), a named input ("in:<name>"), or the field that holds it
+				if strings.HasPrefix(capF, "in:") {
+					capS = capF[3:]
+					found := false
+					for _, n := range e.f.onames {
+						found = found || n == capS
+					}
+					if !found {
+						e.f.onames = append(e.f.onames, capS)
+						e.f.otypes = append(e.f.otypes, tInt)
+					}
+				} else if strings.Trim(capF, "0123456789") != "" {
 					e.useField(capF)
 					capS = e.rname + "." + leanIdent(capF)
 				}
@@ -1066,6 +1076,17 @@ func (e *env) block(stmts []ast.Stmt, fall string, ind string) string {
 			if e.ifReturns(switchToIf(v)) {
 				return sb.String()
 			}
+		case *ast.SendStmt:
+			// `r.f <- x` as a statement: one more token (on a full channel the goroutine would block: the theorems about
+			// such a definition carry `tokens < capacity` as a hypothesis)
+			if f, ok := e.recvField(v.Chan); ok {
+				if _, isChan := e.f.chans[f]; isChan {
+					e.useField(f)
+					sb.WriteString(fmt.Sprintf("%slet %s := { %s with %s := %s.%s + 1 }\n", ind, e.rname, e.rname, leanIdent(f), e.rname, leanIdent(f)))
+					continue
+				}
+			}
+			e.fail("send %s", e.t.p.str(v))
 		case *ast.SelectStmt:
 			ifs := e.selectToIf(v)
 			sb.WriteString(e.ifStmt(ifs, rest, fall, ind))
